@@ -280,7 +280,11 @@ func (rr *rulesRunner) runRules(n ast.Node, tag nodetag.Value) {
 
 		matched := false
 		rule.pat.MatchNode(&rr.gogrepState, n, func(m gogrep.MatchData) {
-			matched = rr.handleMatch(rule, m)
+			// A list pattern can match several sub-slices of one node:
+			// the rule has accepted the node if any of them was accepted.
+			if rr.handleMatch(rule, m) {
+				matched = true
+			}
 		})
 
 		if profiling.LabelsEnabled {
